@@ -28,7 +28,7 @@ for p in sorted(glob.glob(os.path.join(base, 'evidence/C*.json'))):
 ruletable = "\n".join(rows)
 rows = ["| seed | round | change | status | reported by |", "|---|---|---|---|---|"]
 for s in sorted(res):
-    rnd = '2' if s[-1] in '34' else '3' if s[-1] in '78' else '1'
+    rnd = '2' if s[-1] in '34' else '3' if s[-1] in '78' else '4' if s[-1] in 'ab' else '1'
     rows.append("| %s | %s | %s | %s | %s |" % (s, rnd, title(os.path.join(base, 'seeded', s, 'notes.md')), res[s]['status'], ' '.join(res[s]['rules']) or '—'))
 n = sum(1 for s in res if res[s]['status'] == 'detected')
 m = sum(1 for s in res if res[s]['status'].startswith('detected'))
